@@ -36,6 +36,68 @@ Theorem C05_accepted_state : forall s h tc,
 Proof. exact accepted_state. Qed.
 Print Assumptions C05_accepted_state.
 
+(* INVARIANT of the requested variables.  `name_seq c` = names of the typed variables followed by the names
+   still waiting for their type; `extends c c'` = the typed list of c' is the one of c followed by rs, and
+   the names of rs followed by the pending names of c' are the pending names of c.  No event other than
+   add_variable/add_memory on configuration h -- add_config accepted or rejected, with any table, in any
+   order, acknowledgements, data, link loss, new sessions -- duplicates, drops or reorders a name or touches
+   an existing typed variable: add_config only moves pending names, in order, to the end of the typed list. *)
+Theorem C05_requested_variables_invariant_step : forall s e h, touches h e = false ->
+  extends (get s h) (get (fst (fst (step s e))) h).
+Proof. exact step_extends. Qed.
+Print Assumptions C05_requested_variables_invariant_step.
+
+Theorem C05_requested_variables_invariant : forall evs s h,
+  forallb (fun e => negb (touches h e)) evs = true ->
+  extends (get s h) (get (final s evs) h) /\ name_seq (get (final s evs) h) = name_seq (get s h).
+Proof. intros evs s h H. split; [exact (run_extends evs s h H)|exact (run_name_seq evs s h H)]. Qed.
+Print Assumptions C05_requested_variables_invariant.
+
+(* corollary: when add_config accepts at the end of such a history, the variable list of the configuration
+   (the list the creation messages enumerate, C05_create_messages_exact_partial) names exactly the requested
+   variables, once each, typed ones first, then the default-typed ones in their order *)
+Theorem C05_accepted_variables_are_the_requested : forall evs s h,
+  forallb (fun e => negb (touches h e)) evs = true ->
+  valid_h (final s evs) h = true ->
+  snd (add_config (final s evs) h) = AccAccepted ->
+  map v_name (c_vars (get (fst (fst (add_config (final s evs) h))) h)) = name_seq (get s h).
+Proof. exact accepted_vars_are_requested. Qed.
+Print Assumptions C05_accepted_variables_are_the_requested.
+
+(* a rejected add_config announces nothing (and add_config never sends, C05_accept_iff); log_blocks, the id
+   counter, id and cf stay as they were *)
+Theorem C05_rejected_add_quiet : forall s h e, valid_h s h = true -> snd (add_config s h) = AccRejected e ->
+  snd (fst (add_config s h)) = [] /\
+  s_blocks (fst (fst (add_config s h))) = s_blocks s /\ s_counter (fst (fst (add_config s h))) = s_counter s /\
+  c_id (get (fst (fst (add_config s h))) h) = c_id (get s h) /\ c_cf (get (fst (fst (add_config s h))) h) = c_cf (get s h).
+Proof. exact rejected_add_quiet. Qed.
+Print Assumptions C05_rejected_add_quiet.
+
+(* reject on a device that lacks the third default-typed name, accept on a device that has all: three
+   variables *)
+Theorem C05_reject_then_accept_example :
+  let s7 := final init_st (firstn 7 ex_reject_then_accept) in
+  let s8 := final init_st (firstn 8 ex_reject_then_accept) in
+  snd (add_config s7 0) = AccRejected KeyError /\ s8 = s7 /\
+  c_vars (get s8 0) = [] /\ c_dfa (get s8 0) = [20; 1; 21] /\ s_blocks s8 = [] /\
+  c_vars (get (final init_st ex_reject_then_accept) 0)
+    = [mkVar true 20 7 7 0; mkVar true 1 1 1 0; mkVar true 21 3 3 0].
+Proof. exact ex_rejected_add_changes_nothing. Qed.
+Print Assumptions C05_reject_then_accept_example.
+
+(* the one-pass loop of seeded/C05-f (append every name as soon as it resolves, clear the pending list only
+   when the loop completes) violates the invariant: after a rejection the names are both typed and pending,
+   the next acceptance enumerates [20; 1; 20; 1; 21] for the request [20; 1; 21] *)
+Theorem C05_onepass_variant_refuted :
+  let '(vs1, ok1) := onepass ex_toc_small [20; 1; 21] [] in
+  let '(vs2, ok2) := onepass (ex_toc ++ [mkT 21 9 3]) [20; 1; 21] vs1 in
+  ok1 = false /\ ok2 = true /\ map v_name vs1 = [20; 1] /\ map v_name vs2 = [20; 1; 20; 1; 21] /\
+  let c0 := set_dfa (new_cfg 100) [20; 1; 21] in
+  let c1 := set_vars c0 vs1 in
+  name_seq c0 = [20; 1; 21] /\ name_seq c1 = [20; 1; 20; 1; 21] /\ ~ extends c0 c1.
+Proof. exact ex_onepass_duplicates. Qed.
+Print Assumptions C05_onepass_variant_refuted.
+
 (* As long as a configuration has never been accepted (its `cf` is unset), none of its add_config /
    create / start / stop / delete calls sends anything, in every history. *)
 Theorem C05_never_accepted_sends_nothing : forall evs s h, c_cf (get s h) = false -> quiet s h evs.
